@@ -1,10 +1,28 @@
 import Tahoe.Config.Lemmas
+import Tahoe.Config.GlueLemmas
 /-!
 # C48 — configuration values parse to their documented meaning
 
-Property theorems over the model `Tahoe/Config/Parse.lean` (the code as it is after
-fixes/C48-size-whitespace.diff and fixes/C48-date-strict.diff); the documented tables and grammar are in
-`Tahoe/Config/Doc.lean`, helper lemmas in `Tahoe/Config/Lemmas.lean`.
+Property theorems over the models `Tahoe/Config/Parse.lean` (the four util functions) and
+`Tahoe/Config/Glue.lean` (the client.py code between tahoe.cfg and `StorageServer(...)`); the documented
+tables and grammars are in `Tahoe/Config/Doc.lean`, helper lemmas in `Tahoe/Config/Lemmas.lean` and
+`Tahoe/Config/GlueLemmas.lean`.
+
+## Coverage of the statement
+
+| clause of the statement (properties.jsonl) | proved for the model by |
+|---|---|
+| durations: every documented spelling (any number, whitespace, case) parses to the documented seconds | `documented_spellings_duration`, `duration_accepts_iff` (⇐); unit values pinned by `duration_units_pinned`, `second_is_1`, `day_is_86400`, `month_is_31_days`, `year_is_365_days` |
+| sizes: every documented spelling parses to the documented bytes | `documented_spellings_size`, `size_accepts_iff` (⇐); `size_multipliers_pinned` |
+| dates: documented spelling parses to the documented timestamp (midnight UTC of that day) | `documented_spellings_date`, `date_accepts_iff`, `date_midnight_utc`; meaning of the day count: `ordinal_epoch`, `ordinal_next_day` |
+| … whatever the node's time zone | model has no zone; **correspondence only** (harness runs `parse_date` under 10 process time zones) |
+| malformed values are rejected, not silently read as something else | `duration_accepts_iff`, `size_accepts_iff`, `date_accepts_iff` (⇒: the *whole* string has the documented form and the value is the documented one), `accepted_implies_grammar_*`, `malformed_rejected` (always an exception, never a value), `duration_trailing_text_rejected` (the inputs of seed C48-c), `size_rejection_is_valueError`, `long_s_rejected` |
+| "accepted in tahoe.cfg (lease-duration overrides, cutoff dates, reserved space …)": each setting reaches its parser | `glue_reserved_space`, `glue_override_lease_duration`, `glue_cutoff_date`, `glue_booleans` |
+| a malformed setting stops node start | `glue_malformed_value_stops_start`, `glue_bad_boolean_or_mode_stops_start` |
+| a documented configuration starts the node | `glue_documented_config_starts` |
+| abbreviated sizes the node prints parse back to the same value | `print_then_parse_partial` (sizes < 1024, exact); for sizes ≥ 1024 **false of the code**: `print_then_parse_counterexample`, `printed_large_rejected` (open known finding `print-parse-decimal-rejected`) |
+| the regexes / tables in the source are the ones modelled | `duration_regex_pinned`, `size_regex_pinned`, `date_regex_pinned` (extracted constants); recogniser ≙ regex and character classes ≙ `Sym`: **correspondence only** (every code point in the thorough tier) |
+| configparser itself (line splitting, `strip`, `getboolean` words, option-name folding) | **correspondence only**; `strip` and the boolean / mode classes are abstracted by the harness |
 -/
 namespace Tahoe.C48
 open Tahoe.Config Tahoe.Generated
@@ -331,5 +349,275 @@ theorem printed_large_rejected (si : Bool) (s : Nat) (hs : 1024 ≤ s) :
   have hs' : ¬ s < 1024 := by omega
   simp only [abbreviateSpace, hs', if_false, List.append_assoc, List.cons_append, List.nil_append]
   exact parseSize_digits_dot _ _ (digitsOf_ne_nil _) _
+
+/-! ## The parsers accept exactly the documented grammar (both directions) -/
+
+/-- `parse_duration` returns `v` **iff** the whole string is whitespace · number · whitespace · documented
+    unit (any ASCII case) · whitespace and `v` = number × the unit's documented seconds. -/
+theorem duration_accepts_iff (s : List Sym) (v : Nat) : parseDuration s = .ok v ↔ DocDuration s v := by
+  constructor
+  · exact accepted_implies_grammar_duration s v
+  · rintro ⟨pre, ds, mid, w, post, word, k, rfl, hpre, hmid, hpost, hds, hu, hw, rfl⟩
+    exact documented_spellings_duration pre mid post ds w word k hpre hmid hpost hds hu hw
+
+/-- `parse_abbreviated_size` returns `v` **iff** the whole string is number · whitespace · documented suffix
+    (as `str.upper()` sees it) · at most one final newline and `v` = number × 1000^i resp. 1024^i. -/
+theorem size_accepts_iff (s : List Sym) (v : Nat) : parseSize s = .ok v ↔ DocSize s v := by
+  constructor
+  · exact accepted_implies_grammar_size s v
+  · rintro ⟨ds, mid, w, tail, i, bin, hasB, rfl, hds, hmid, htail, hi, hw, rfl⟩
+    exact parseSize_complete ds mid w tail i bin hasB hds hmid htail hi hw
+
+/-- `parse_date` returns `t` **iff** the string is exactly `YYYY-MM-DD` for a day that exists and `t` is
+    86400 × (days from 1970-01-01 to it). -/
+theorem date_accepts_iff (s : List Sym) (t : Int) : parseDate s = .ok t ↔ DocDate s t := by
+  constructor
+  · intro h
+    obtain ⟨a, b, c, d, e, f, g, h', hs, hv, ht, -⟩ := date_midnight_utc s t h
+    exact ⟨a, b, c, d, e, f, g, h', hs, hv, ht⟩
+  · rintro ⟨a, b, c, d, e, f, g, h', rfl, hv, rfl⟩
+    rw [documented_spellings_date a b c d e f g h' hv]
+    congr 1; omega
+
+example : DocDuration [.dig 7, .asc 100, .asc 97, .asc 121, .asc 115] (7 * 86400) :=        -- "7days"
+  (duration_accepts_iff _ _).mp (by decide)
+example : DocSize [.dig 1, .dig 0, .dig 0, .ws, .asc 77] (100 * 1000 ^ 2) := (size_accepts_iff _ _).mp (by decide)  -- "100 M"
+example : DocDate [.dig 2, .dig 0, .dig 0, .dig 9, .asc 45, .dig 0, .dig 1, .asc 45, .dig 1, .dig 6] 1232064000 :=
+  (date_accepts_iff _ _).mp (by decide)
+
+/-- a string outside the documented grammar never yields a value: the call raises (or, for the empty size
+    only, returns `None`) -/
+theorem malformed_rejected (s : List Sym) :
+    ((¬ ∃ v, DocDuration s v) → parseDuration s = .valueError ∨ parseDuration s = .keyError) ∧
+    ((¬ ∃ v, DocSize s v) → s ≠ [] → parseSize s = .valueError) ∧
+    ((¬ ∃ t, DocDate s t) → parseDate s = .valueError ∨ parseDate s = .keyError) := by
+  refine ⟨fun h => ?_, fun h hne => ?_, fun h => ?_⟩
+  · cases hp : parseDuration s with
+    | ok v => exact absurd ⟨v, (duration_accepts_iff s v).mp hp⟩ h
+    | none => exact absurd hp (parseDuration_ne_none s)
+    | valueError => exact Or.inl rfl
+    | keyError => exact Or.inr rfl
+  · cases hp : parseSize s with
+    | ok v => exact absurd ⟨v, (size_accepts_iff s v).mp hp⟩ h
+    | none => exact absurd ((parseSize_none_iff s).mp hp) hne
+    | valueError => rfl
+    | keyError => exact absurd hp (size_rejection_is_valueError s).1
+  · cases hp : parseDate s with
+    | ok v => exact absurd ⟨v, (date_accepts_iff s v).mp hp⟩ h
+    | none => exact absurd hp (parseDate_ne_none s)
+    | valueError => exact Or.inl rfl
+    | keyError => exact Or.inr rfl
+
+/-- the end anchor matters (seed C48-c dropped it): a valid duration followed by more text is not a duration —
+    "1 month 15 days", "3 mon", "45 days #", "1 day 12 hours", "2 moons" are all rejected (instances of
+    `duration_accepts_iff` ⇒; the seeded code read them as 31 days, 3 months, 45 days, 1 day, 2 months) -/
+theorem duration_trailing_text_rejected :
+    parseDuration [.dig 1, .ws, .asc 109, .asc 111, .asc 110, .asc 116, .asc 104, .ws, .dig 1, .dig 5, .ws, .asc 100, .asc 97, .asc 121, .asc 115] = .valueError ∧
+    parseDuration [.dig 3, .ws, .asc 109, .asc 111, .asc 110] = .valueError ∧
+    parseDuration [.dig 4, .dig 5, .ws, .asc 100, .asc 97, .asc 121, .asc 115, .ws, .asc 35] = .valueError ∧
+    parseDuration [.dig 1, .ws, .asc 100, .asc 97, .asc 121, .ws, .dig 1, .dig 2, .ws, .asc 104, .asc 111, .asc 117, .asc 114, .asc 115] = .valueError ∧
+    parseDuration [.dig 2, .ws, .asc 109, .asc 111, .asc 111, .asc 110, .asc 115] = .valueError := by decide
+
+/-! ## The client.py glue: each `[storage]` setting reaches its parser; a malformed one stops node start -/
+
+/-- `reserved_space`: absent or empty → 0 bytes reserved; otherwise the stripped value has the documented
+    size grammar and the server reserves its documented number of bytes. -/
+theorem glue_reserved_space (c : StorageCfg) (st : Started) (h : startStorage c = .started st) :
+    (c.reservedSpace = none ∧ st.reserved = 0) ∨
+    ∃ v, c.reservedSpace = some v ∧ ((strip v = [] ∧ st.reserved = 0) ∨ DocSize (strip v) st.reserved) := by
+  obtain ⟨en, mode, old, cut, -, hrs, -⟩ := startStorageE_inv c st ((startStorage_started_iff c st).mp h)
+  rcases readReserved_ok c _ hrs with h0 | ⟨v, hv, h1 | h2⟩
+  · exact Or.inl h0
+  · exact Or.inr ⟨v, hv, Or.inl h1⟩
+  · exact Or.inr ⟨v, hv, Or.inr ((size_accepts_iff _ _).mp h2)⟩
+
+/-- `expire.override_lease_duration`: if present it has the documented duration grammar (whatever the mode),
+    and in "age" mode the lease checker uses exactly its documented number of seconds; absent → no override. -/
+theorem glue_override_lease_duration (c : StorageCfg) (st : Started) (h : startStorage c = .started st) :
+    (c.overrideLeaseDuration = none ∧ st.overrideDuration = none) ∨
+    ∃ v n, c.overrideLeaseDuration = some v ∧ DocDuration (strip v) n ∧
+      st.overrideDuration = (if st.mode = .age then some n else none) := by
+  obtain ⟨en, mode, old, cut, -, -, -, -, -, hold, -, -, -, -, hm, -, ho, -⟩ :=
+    startStorageE_inv c st ((startStorage_started_iff c st).mp h)
+  rcases readOverride_ok c _ hold with ⟨h0, rfl⟩ | ⟨v, n, hv, hp, rfl⟩
+  · left; refine ⟨h0, ?_⟩; rw [ho]; split <;> rfl
+  · right; exact ⟨v, n, hv, (duration_accepts_iff _ _).mp hp, by rw [ho, hm]⟩
+
+/-- `expire.cutoff_date`: in "cutoff-date" mode the key is present, is a documented date, and the lease
+    checker's cutoff is that day's midnight UTC; in "age" mode there is no cutoff. -/
+theorem glue_cutoff_date (c : StorageCfg) (st : Started) (h : startStorage c = .started st) :
+    (st.mode = .age ∧ st.cutoff = none) ∨
+    (st.mode = .cutoff ∧ c.expireMode = some .cutoff ∧
+      ∃ v t, c.cutoffDate = some v ∧ DocDate (strip v) t ∧ st.cutoff = some t) := by
+  obtain ⟨en, mode, old, cut, -, -, -, -, hmode, -, hcut, -, -, hne, hm, -, -, hc⟩ :=
+    startStorageE_inv c st ((startStorage_started_iff c st).mp h)
+  cases mode with
+  | age => left; exact ⟨hm, by rw [hc]; rfl⟩
+  | other => exact absurd rfl hne
+  | cutoff =>
+    right
+    obtain ⟨v, t, hv, hp, rfl⟩ := readCutoff_ok c _ hcut
+    refine ⟨hm, ?_, v, t, hv, (date_accepts_iff _ _).mp hp, by rw [hc]; rfl⟩
+    unfold readMode at hmode
+    split at hmode
+    · rename_i m hm'; simp only [Except.ok.injEq] at hmode; rw [hm', hmode]
+    · split at hmode <;> simp at hmode
+
+/-- the boolean settings mean what they say, with the documented defaults (`readonly` false,
+    `expire.enabled` false, `expire.immutable` / `expire.mutable` true); "age" is the default mode only
+    while expiry is disabled -/
+theorem glue_booleans (c : StorageCfg) (st : Started) (h : startStorage c = .started st) :
+    getBool c.readonly false = .ok st.readonly ∧ getBool c.expireEnabled false = .ok st.enabled ∧
+    getBool c.expireImmutable true = .ok st.immutable ∧ getBool c.expireMutable true = .ok st.mutable ∧
+    (c.expireMode = none → st.enabled = false ∧ st.mode = .age) := by
+  obtain ⟨en, mode, old, cut, hro, -, -, hen, hmode, -, -, himm, hmut, -, hm, he, -, -⟩ :=
+    startStorageE_inv c st ((startStorage_started_iff c st).mp h)
+  refine ⟨hro, by rw [he]; exact hen, himm, hmut, fun hnone => ?_⟩
+  unfold readMode at hmode
+  rw [hnone] at hmode
+  cases en <;> simp at hmode
+  exact ⟨he, by rw [hm, ← hmode]⟩
+
+/-- **a malformed value stops node start**: `reserved_space` non-empty and not a documented size, an
+    `override_lease_duration` that is not a documented duration (in any mode), or — in "cutoff-date" mode —
+    a `cutoff_date` that is not a documented date: `get_anonymous_storage_server` raises. -/
+theorem glue_malformed_value_stops_start (c : StorageCfg) :
+    ((∃ v, c.reservedSpace = some v ∧ strip v ≠ [] ∧ ¬ ∃ n, DocSize (strip v) n) → ∃ e, startStorage c = .error e) ∧
+    ((∃ v, c.overrideLeaseDuration = some v ∧ ¬ ∃ n, DocDuration (strip v) n) → ∃ e, startStorage c = .error e) ∧
+    ((c.expireMode = some .cutoff ∧ ∃ v, c.cutoffDate = some v ∧ ¬ ∃ t, DocDate (strip v) t) →
+      ∃ e, startStorage c = .error e) := by
+  refine ⟨?_, ?_, ?_⟩
+  · rintro ⟨v, hv, hne, hbad⟩
+    rcases startStorage_total c with ⟨st, hst⟩ | he
+    · rcases glue_reserved_space c st hst with ⟨h0, -⟩ | ⟨v', hv', ⟨h1, -⟩ | h2⟩
+      · rw [hv] at h0; simp at h0
+      · rw [hv] at hv'; cases hv'; exact absurd h1 hne
+      · rw [hv] at hv'; cases hv'; exact absurd ⟨_, h2⟩ hbad
+    · exact he
+  · rintro ⟨v, hv, hbad⟩
+    rcases startStorage_total c with ⟨st, hst⟩ | he
+    · rcases glue_override_lease_duration c st hst with ⟨h0, -⟩ | ⟨v', n, hv', hd, -⟩
+      · rw [hv] at h0; simp at h0
+      · rw [hv] at hv'; cases hv'; exact absurd ⟨n, hd⟩ hbad
+    · exact he
+  · rintro ⟨hmode, v, hv, hbad⟩
+    rcases startStorage_total c with ⟨st, hst⟩ | he
+    · rcases glue_cutoff_date c st hst with ⟨hage, -⟩ | ⟨-, -, v', t, hv', hd, -⟩
+      · -- mode "age" is impossible: the key says cutoff-date
+        obtain ⟨en, mode, old, cut, -, -, -, -, hm', -, -, -, -, -, hm, -⟩ :=
+          startStorageE_inv c st ((startStorage_started_iff c st).mp hst)
+        unfold readMode at hm'
+        rw [hmode] at hm'
+        simp only [Except.ok.injEq] at hm'
+        rw [← hm', hage] at hm
+        exact absurd hm (by decide)
+      · rw [hv] at hv'; cases hv'; exact absurd ⟨t, hd⟩ hbad
+    · exact he
+
+/-- an unreadable boolean, a mode other than "age"/"cutoff-date", expiry enabled without a mode, or
+    "cutoff-date" without a date: node start stops -/
+theorem glue_bad_boolean_or_mode_stops_start (c : StorageCfg)
+    (h : c.readonly = some .bad ∨ c.debugDiscard = some .bad ∨ c.expireEnabled = some .bad ∨
+         c.expireImmutable = some .bad ∨ c.expireMutable = some .bad ∨ c.expireMode = some .other ∨
+         (c.expireEnabled = some .t ∧ c.expireMode = none) ∨ (c.expireMode = some .cutoff ∧ c.cutoffDate = none)) :
+    ∃ e, startStorage c = .error e := by
+  rcases startStorage_total c with ⟨st, hst⟩ | he
+  · exfalso
+    obtain ⟨en, mode, old, cut, hro, -, ⟨dd, hdd⟩, hen, hmode, -, hcut, himm, hmut, hne, -⟩ :=
+      startStorageE_inv c st ((startStorage_started_iff c st).mp hst)
+    rcases h with h | h | h | h | h | h | ⟨h1, h2⟩ | ⟨h1, h2⟩
+    · rw [h] at hro; simp [getBool] at hro
+    · rw [h] at hdd; simp [getBool] at hdd
+    · rw [h] at hen; simp [getBool] at hen
+    · rw [h] at himm; simp [getBool] at himm
+    · rw [h] at hmut; simp [getBool] at hmut
+    · unfold readMode at hmode; rw [h] at hmode; simp only [Except.ok.injEq] at hmode; exact hne hmode.symm
+    · rw [h1] at hen; simp only [getBool, Except.ok.injEq] at hen
+      unfold readMode at hmode; rw [h2, ← hen] at hmode; simp at hmode
+    · unfold readMode at hmode; rw [h1] at hmode; simp only [Except.ok.injEq] at hmode
+      rw [← hmode] at hcut
+      unfold readCutoff at hcut; rw [h2] at hcut; simp at hcut
+  · exact he
+
+/-- **a documented configuration starts the node**: readable booleans, a documented (or empty / absent)
+    `reserved_space`, a documented (or absent) override, mode "age" or "cutoff-date" (or absent while expiry
+    is not enabled), and in "cutoff-date" mode a documented date. -/
+theorem glue_documented_config_starts (c : StorageCfg)
+    (hb : c.readonly ≠ some .bad ∧ c.debugDiscard ≠ some .bad ∧ c.expireEnabled ≠ some .bad ∧
+          c.expireImmutable ≠ some .bad ∧ c.expireMutable ≠ some .bad)
+    (hrs : ∀ v, c.reservedSpace = some v → strip v = [] ∨ ∃ n, DocSize (strip v) n)
+    (hold : ∀ v, c.overrideLeaseDuration = some v → ∃ n, DocDuration (strip v) n)
+    (hmode : c.expireMode = some .age ∨ c.expireMode = some .cutoff ∨ (c.expireMode = none ∧ c.expireEnabled ≠ some .t))
+    (hcut : c.expireMode = some .cutoff → ∃ v t, c.cutoffDate = some v ∧ DocDate (strip v) t) :
+    ∃ st, startStorage c = .started st := by
+  obtain ⟨ro, h1⟩ := getBool_ok c.readonly false hb.1
+  obtain ⟨dd, h3⟩ := getBool_ok c.debugDiscard false hb.2.1
+  obtain ⟨en, h4⟩ := getBool_ok c.expireEnabled false hb.2.2.1
+  obtain ⟨imm, h8⟩ := getBool_ok c.expireImmutable true hb.2.2.2.1
+  obtain ⟨mu, h9⟩ := getBool_ok c.expireMutable true hb.2.2.2.2
+  have h2 : ∃ rs, readReserved c = .ok rs := by
+    unfold readReserved
+    cases hc : c.reservedSpace with
+    | none => exact ⟨0, rfl⟩
+    | some v =>
+      rcases hrs v hc with h0 | ⟨n, hn⟩
+      · exact ⟨0, by simp only [h0]; rfl⟩
+      · exact ⟨n, by simp only [(size_accepts_iff _ _).mpr hn]; rfl⟩
+  obtain ⟨rs, h2⟩ := h2
+  have h6 : ∃ old, readOverride c = .ok old := by
+    unfold readOverride
+    cases hc : c.overrideLeaseDuration with
+    | none => exact ⟨none, rfl⟩
+    | some v =>
+      obtain ⟨n, hn⟩ := hold v hc
+      exact ⟨some n, by simp only [(duration_accepts_iff _ _).mpr hn]; rfl⟩
+  obtain ⟨old, h6⟩ := h6
+  have h5 : ∃ mode, readMode c en = .ok mode ∧ mode ≠ .other ∧ (mode = .cutoff → c.expireMode = some .cutoff) := by
+    unfold readMode
+    rcases hmode with h | h | ⟨h, hne⟩
+    · exact ⟨.age, by rw [h], by decide, by intro h'; cases h'⟩
+    · exact ⟨.cutoff, by rw [h], by decide, fun _ => h⟩
+    · refine ⟨.age, ?_, by decide, by intro h'; cases h'⟩
+      rw [h]
+      have : en = false := by
+        cases he : c.expireEnabled with
+        | none => rw [he] at h4; simp only [getBool, Except.ok.injEq] at h4; exact h4.symm
+        | some x =>
+          cases x with
+          | t => exact absurd he hne
+          | f => rw [he] at h4; simp only [getBool, Except.ok.injEq] at h4; exact h4.symm
+          | bad => exact absurd he hb.2.2.1
+      simp [this]
+  obtain ⟨mode, h5, hno, hcm⟩ := h5
+  have h7 : ∃ cut, readCutoff c mode = .ok cut := by
+    unfold readCutoff
+    by_cases hm : mode = .cutoff
+    · obtain ⟨v, t, hv, ht⟩ := hcut (hcm hm)
+      exact ⟨some t, by simp only [hm, if_true, hv, (date_accepts_iff _ _).mpr ht]; rfl⟩
+    · exact ⟨none, by simp only [hm, if_false]⟩
+  obtain ⟨cut, h7⟩ := h7
+  have := startStorageE_of_reads c ro dd en imm mu rs mode old cut h1 h2 h3 h4 h5 h6 h7 h8 h9
+  unfold startStorage
+  rw [this]
+  cases mode with
+  | age => exact ⟨_, rfl⟩
+  | cutoff => exact ⟨_, rfl⟩
+  | other => exact absurd rfl hno
+
+-- a whole documented [storage] section: reserved_space = " 1 G ", expire.enabled, mode age, override "2 mo", expire.mutable = no
+example : startStorage { reservedSpace := some [.ws, .dig 1, .ws, .asc 71, .ws], expireEnabled := some .t, expireMode := some .age,
+                         overrideLeaseDuration := some [.dig 2, .asc 109, .asc 111], expireMutable := some .f }
+    = .started ⟨1000000000, true, .age, some 5356800, none, true, false, false⟩ := by decide
+-- cutoff-date mode with the documented date; an override in this mode is parsed (must be well-formed) but not used
+set_option maxRecDepth 8000 in
+example : startStorage { expireMode := some .cutoff, cutoffDate := some [.dig 2, .dig 0, .dig 0, .dig 9, .asc 45, .dig 0, .dig 1, .asc 45, .dig 1, .dig 6],
+                         overrideLeaseDuration := some [.dig 7, .asc 100, .asc 97, .asc 121, .asc 115] }
+    = .started ⟨0, false, .cutoff, none, some 1232064000, true, true, false⟩ := by decide
+-- malformed values stop the start: "1.5G", "1 month 15 days", 2009-02-31, "1ſ" (KeyError), enabled without a mode
+example : startStorage { reservedSpace := some [.dig 1, .asc 46, .dig 5, .asc 71] } = .error .valueError := by decide
+example : startStorage { expireMode := some .cutoff, cutoffDate := some [.dig 2, .dig 0, .dig 0, .dig 9, .asc 45, .dig 0, .dig 2, .asc 45, .dig 3, .dig 1] }
+    = .error .valueError := by decide
+example : startStorage { overrideLeaseDuration := some [.dig 1, .longS] } = .error .keyError := by decide
+example : startStorage { expireEnabled := some .t } = .error .missingEntry := by decide
 
 end Tahoe.C48
